@@ -498,6 +498,7 @@ def focused_docs() -> list[tuple[str, dict]]:
             },
         )
     )
+    docs += allof_required_docs()
     for k in ("minimum", "maxLength", "minItems"):
         docs.append((f"root_{k}", {"title": "Model", **L[k]}))
     mapping = {"cat": "#/definitions/Cat", "dog": "#/definitions/Dog"}
@@ -517,6 +518,27 @@ def focused_docs() -> list[tuple[str, dict]]:
         )
     )
     return docs
+
+
+def allof_required_docs() -> list[tuple[str, dict]]:
+    """`required` stated at the allOf level — by a property-less member, or next to `allOf` — naming members the
+    class declares itself, among them members whose JSON name is not their Python name (not an identifier,
+    a keyword, camel case under --snake-case-field)"""
+    inline = {
+        "type": "object",
+        "properties": {"order-id": {"type": "string"}, "class": {"type": "string", "maxLength": 8}, "OrderId": {"type": "integer", "minimum": 0}, "qty": {"type": "integer"}, "note": {"type": "string"}},
+    }
+    base = {"Base": {"type": "object", "properties": {"a": {"type": "string"}, "b": {"type": "integer"}}, "required": ["a"]}}
+    names = ["order-id", "class", "OrderId", "qty"]
+    return [
+        ("allOf_required_renamed", {"title": "Model", "allOf": [{"$ref": "#/definitions/Base"}, inline, {"required": names}], "definitions": base}),
+        ("allOf_required_renamed_noref", {"title": "Model", "allOf": [inline, {"required": names}]}),
+        ("allOf_required_sibling", {"title": "Model", "allOf": [{"$ref": "#/definitions/Base"}, inline], "required": names, "definitions": base}),
+        (
+            "allOf_required_nested",
+            {"title": "Model", "type": "object", "properties": {"m": {"allOf": [{"$ref": "#/definitions/Base"}, inline, {"required": names[:2]}]}}, "required": ["m"], "definitions": base},
+        ),
+    ]
 
 
 def ap_value_docs() -> list[tuple[str, dict]]:
@@ -541,6 +563,70 @@ def campaign_focused(ck: Check) -> None:
         for st in STYLES:
             for r in ROUTINGS:
                 oracle_doc(ck, camp, doc, st, r, insts, muts)
+            if label.startswith("allOf_required"):
+                oracle_doc(ck, camp, doc, st, "snake", insts, muts)  # --snake-case-field: camel-case members are renamed too
+    camp.wall_s = time.time() - t0
+
+
+def campaign_pfields(ck: Check, n: int) -> None:
+    """own fields of an allOf class WITH their Python names: Lean (`markRequired ∘ parseFields` with the field-name
+    resolver of Dcg.Model.Names) vs the field objects of the real parser (name, original_name, required)"""
+    camp = ck.campaign("sem.pfields (Model.Translate.markRequired ∘ parseFields, resolver of Model.Names) vs the parser's fields (name, original_name, required)")
+    t0 = time.time()
+    rng = ck.rng.fork("pfields")
+    docs = [d for _l, d in allof_required_docs() if "allOf" in d and "required" not in d]
+    for i in range(n):
+        doc, feats = semgen.gen_doc(rng.fork(str(i)), semgen.GenCfg(boost="allOf", unions=False, dict_values=False, roots=False))
+        # allOf classes that are definitions or the document itself are addressable in the parser's results
+        body = semlean.body_of(doc)
+        for nm, sub in [("", body), *(doc.get("definitions") or {}).items()]:
+            if isinstance(sub, dict) and "allOf" in sub:
+                docs.append({"title": "Model", **{k: v for k, v in sub.items()}, "definitions": doc.get("definitions", {})})
+        for pn, ps in (body.get("properties") or {}).items():
+            if isinstance(ps, dict) and "allOf" in ps and "required" not in ps:
+                docs.append({"title": "Model", **ps, "definitions": doc.get("definitions", {})})
+    reqs, meta = [], []
+    for doc in docs:
+        try:
+            ssx = semlean.schema_sx(semlean.body_of(doc), top=True)
+        except semlean.Unmodelled:
+            camp.unmodelled += 1
+            continue
+        if not ssx.startswith("(allOf"):
+            continue
+        for st in STYLES:
+            for sn in (0, 1):
+                reqs.append(f"sem.pfields {st} contype {sn} {ssx}")
+                meta.append((doc, st, sn))
+    replies = ck.driver.run(reqs)
+    for (doc, st, sn), rep in zip(meta, replies):
+        camp.evaluations += 1
+        if not rep.startswith("ok"):
+            camp.unmodelled += 1
+            camp.hit(f"model:{rep[:20]}")
+            continue
+        model = [(unhx(x[0]), unhx(x[1]), x[2] == "1") for x in semlean.parse_sx(rep[2:])]
+        try:
+            ri = semlean.RealIR(doc, st, "contype", {"snake_case_field": bool(sn)})
+            dm = ri.root_model()
+            if dm is None or not dm.base_classes and not any(True for _ in dm.fields):
+                camp.unmodelled += 1
+                continue
+            real = [(f.name, f.original_name if f.original_name is not None else f.name, bool(f.required)) for f in dm.fields]
+        except Exception as e:  # noqa: BLE001
+            camp.unmodelled += 1
+            camp.hit(f"parser-raised:{type(e).__name__}")
+            continue
+        renamed = any(a != b for a, b, _ in real)
+        camp.hit("renamed_member" if renamed else "names_unchanged")
+        camp.hit("snake" if sn else "plain")
+        if any(a != b and r for a, b, r in model):
+            camp.hit("renamed_member_required")
+        camp.distinct.add(hash((semgen.canon(doc), st, sn)))
+        if model != real:
+            ck.disagree(camp, {"doc": doc, "style": st, "snake_case_field": bool(sn)}, model, real)
+        elif len(camp.samples) < 2 and renamed:
+            camp.samples.append({"doc": doc, "style": st, "snake_case_field": bool(sn), "fields": model})
     camp.wall_s = time.time() - t0
 
 
@@ -618,6 +704,7 @@ def run(ck: Check) -> None:
     campaign_normalise(ck, 400 if quick else 4000)
     campaign_cast(ck)
     campaign_validn(ck, 40 if quick else 300)
+    campaign_pfields(ck, 60 if quick else 600)
     campaign_focused(ck)
     campaign_random(ck, 80 if quick else 1200)
     ck.search_hooks.append(search_broken_keyword)
